@@ -685,6 +685,23 @@ func c03Count(rn, rth, sum int, counts map[c03Fact]int) (c03VoteResult, c03Fact)
 	}
 }
 
+// c03Plurality is the most voted fact (ties: the lowest fact); nil without votes.
+// It is the only claim that can turn the votes into a MAJORITY voteproof.
+func c03Plurality(c *c03Cand) *c03Fact {
+	counts := map[c03Fact]int{}
+	for _, v := range c.Votes {
+		counts[v.Fact]++
+	}
+
+	if len(counts) < 1 {
+		return nil
+	}
+
+	_, top := c03Count(1, 1, len(c.Votes), counts)
+
+	return &top
+}
+
 // naturalMajority is what an honest counter would write into the voteproof.
 func c03NaturalMajority(n, t10 int, c *c03Cand) *c03Fact {
 	rn, rth := n, c03Quorum(n, t10)
@@ -1146,7 +1163,7 @@ func (w *c03World) mainProduct(l *c03Local, t10 int, job c03Job, reduced bool, m
 	run := func() {
 		c03ForEachAssignment(voters, menu, func(votes []c03Vote) {
 			c.Votes = votes
-			c.Maj = c03NaturalMajority(n, t10, c)
+			c.Maj = c03Plurality(c)
 			w.eval(l, t10, c)
 		})
 	}
@@ -1285,8 +1302,10 @@ func (w *c03World) deviations(l *c03Local, t10 int, emask int) {
 			claims = append(claims, &c03Fact{Prop: 0, Ex: emask ^ 1}, &c03Fact{Prop: 0, Ex: emask | 1<<n})
 		}
 
+		plur := c03Plurality(bc) // that claim is a candidate of the main product
+
 		for _, m := range claims {
-			if (m == nil) == (bc.Maj == nil) && (m == nil || *m == *bc.Maj) {
+			if (m == nil) == (plur == nil) && (m == nil || *m == *plur) {
 				continue
 			}
 
@@ -1597,7 +1616,7 @@ func c03Configs(r *vlib.Run) []c03Config {
 
 			switch {
 			case r.Thorough():
-				sizes = append(sizes, nr{5, false, 256}, nr{6, true, 0}, nr{7, true, 0})
+				sizes = append(sizes, nr{5, false, 4096}, nr{6, true, 0}, nr{7, true, 0})
 			case st == base.StageINIT:
 				sizes = append(sizes, nr{5, true, 0})
 			}
@@ -1739,11 +1758,17 @@ func c03RunConfig(r *vlib.Run, cfg c03Config, workers int, stop *atomic.Bool) {
 	var pairs, conflicts, withMaj int64
 
 	for i := range list {
-		if list[i].maj != nil {
-			withMaj++
+		if list[i].maj == nil {
+			continue // a DRAW voteproof carries no majority fact
 		}
 
+		withMaj++
+
 		for j := i + 1; j < len(list); j++ {
+			if list[j].maj == nil {
+				continue
+			}
+
 			pairs++
 
 			if c03CheckPair(r, n, cfg.t10, cfg.stage, list[i], list[j]) {
